@@ -103,7 +103,8 @@ def run_case(ctx, rng, index, casedir):
     g = rgfa.gen_rgfa(rng, size=size)
     gz = rng.random() < 0.25
     gpath = g.write(os.path.join(casedir, vary_name(rng, "g.gfa") + (".gz" if gz else "")), rng=rng, shuffle=rng.random() < 0.5,
-                    with_seq=rng.random() >= 0.2)  # an rGFA without sequences ('*', lengths in LN) is enough to convert
+                    with_seq=rng.random() >= 0.2,
+                    bo_no=({n: (rng.randint(0, 40), rng.randint(0, 6)) for n in g.nodes} if rng.random() < 0.15 else None))  # an rGFA without sequences ('*', lengths in LN) is enough to convert
     coords = rgaf.Coords(g)
     M.CTX["coords"] = coords
     nrec = rng.randint(8, 30)
